@@ -56,6 +56,12 @@ def check_where(ctx, rng):
     c, (l, op, r) = cond(rng)
     closer = rng.choice(CLOSERS)
     kw = lambda s: ''.join(ch.upper() if rng.random() < 0.5 else ch.lower() for ch in s) if rng.random() < 0.5 else s
+    if closer and rng.random() < 0.6:
+        # the closing keyword in any letter case and with any whitespace between its words (GROUP\nBY, order\t by, UNION   ALL)
+        import re as _re
+        m = _re.match(r'(GROUP BY|ORDER BY|UNION ALL|LIMIT|UNION|EXCEPT|HAVING|RETURNING|INTO)\b', closer)
+        if m:
+            closer = kw(m.group(1)).replace(' ', rng.choice([' ', '  ', '\n', '\t', ' \n ', '\r\n'])) + closer[m.end():]
     inner = 'SELECT x FROM t' + w(rng) + kw('WHERE') + w(rng) + c + ((w(rng) + closer) if closer else '')
     nest = rng.random() < 0.4
     text = ('SELECT * FROM (' + inner + ') sub WHERE z = 1' if nest else inner)
